@@ -58,7 +58,14 @@ func SafeExecute(sc Scenario, p *Plan) (res *Result) {
 func WorkerMain(sc Scenario, tier string, seed uint64, from, stride, total int) {
 	out := bufio.NewWriterSize(os.Stdout, 1<<16)
 	defer out.Flush()
+	maxPlans := sc.Describe().PlansPerProcess
+	done := 0
 	for i := from; i < total; i += stride {
+		if maxPlans > 0 && done >= maxPlans {
+			fmt.Fprintf(out, "PAUSE %d\n", i)
+			return
+		}
+		done++
 		p := sc.Generate(seed, tier, i)
 		p.Index = i
 		fmt.Fprintf(out, "BEGIN %d\n", i)
@@ -133,6 +140,23 @@ type Driver struct {
 	Workers int
 }
 
+// env returns the environment of a worker / exec process.
+func (d *Driver) env(sc Scenario) []string {
+	e := append(os.Environ(), "GORACE=halt_on_error=0 history_size=7")
+	if sc.Describe().Race {
+		dir := filepath.Join(os.Getenv("HOME"), ".cache", "verif-work", fmt.Sprintf("racelogs-%d", os.Getpid()))
+		os.MkdirAll(dir, 0o755)
+		prefix := filepath.Join(dir, "race")
+		e = append(os.Environ(), "GORACE=log_path="+prefix+" halt_on_error=0 history_size=7", "VERIF_RACE_LOG="+prefix)
+	}
+	return e
+}
+
+// Cleanup removes scratch files of this driver process.
+func (d *Driver) Cleanup() {
+	os.RemoveAll(filepath.Join(os.Getenv("HOME"), ".cache", "verif-work", fmt.Sprintf("racelogs-%d", os.Getpid())))
+}
+
 func (d *Driver) bin(sc Scenario) string {
 	if sc.Describe().Race && d.RaceBin != "" {
 		return d.RaceBin
@@ -149,7 +173,7 @@ func (d *Driver) execPlan(sc Scenario, p *Plan, timeout time.Duration) (res *Res
 	var stdout, stderr bytes.Buffer
 	cmd.Stdout = &stdout
 	cmd.Stderr = &stderr
-	cmd.Env = append(os.Environ(), "GORACE=halt_on_error=0 history_size=7")
+	cmd.Env = d.env(sc)
 	if err := cmd.Start(); err != nil {
 		return nil, true, err.Error()
 	}
@@ -309,6 +333,11 @@ func (d *Driver) Check(id, tier string) int {
 		return 2
 	}
 	desc := sc.Describe()
+	if desc.Race && d.RaceBin == "" {
+		fmt.Fprintln(os.Stderr, "INFRA: property", id, "needs the -race engine (run it through ./check)")
+		return 2
+	}
+	defer d.Cleanup()
 	seed := SeedFromEnv()
 	start := time.Now()
 	total := sc.Runs(tier)
@@ -334,7 +363,7 @@ func (d *Driver) Check(id, tier string) int {
 			for from < total {
 				// (re)start a worker at index from; a death resumes after the dead index
 				cmd := exec.Command(d.bin(sc), "worker", id, tier, strconv.FormatUint(seed, 10), strconv.Itoa(from), strconv.Itoa(nw), strconv.Itoa(total))
-				cmd.Env = append(os.Environ(), "GORACE=halt_on_error=0 history_size=7")
+				cmd.Env = d.env(sc)
 				stdout, _ := cmd.StdoutPipe()
 				var stderr bytes.Buffer
 				cmd.Stderr = &stderr
@@ -349,6 +378,7 @@ func (d *Driver) Check(id, tier string) int {
 				sc2.Buffer(make([]byte, 1<<20), 1<<28)
 				cur := -1
 				ended := false
+				paused := -1
 				for sc2.Scan() {
 					line := sc2.Bytes()
 					if bytes.HasPrefix(line, []byte("BEGIN ")) {
@@ -357,6 +387,10 @@ func (d *Driver) Check(id, tier string) int {
 					}
 					if bytes.Equal(line, []byte("END")) {
 						ended = true
+						continue
+					}
+					if bytes.HasPrefix(line, []byte("PAUSE ")) {
+						paused, _ = strconv.Atoi(string(line[6:]))
 						continue
 					}
 					var r Result
@@ -373,6 +407,10 @@ func (d *Driver) Check(id, tier string) int {
 				timer.Stop()
 				if ended {
 					return
+				}
+				if paused >= 0 {
+					from = paused // a fresh process continues (cold start per process)
+					continue
 				}
 				// the worker died while executing plan cur
 				mu.Lock()
@@ -421,6 +459,7 @@ func (d *Driver) Check(id, tier string) int {
 	}
 
 	known := LoadFindings()
+	knownHits := map[*Finding][]string{}
 	exit := 0
 	var reported []string
 	minimised := 0
@@ -433,7 +472,7 @@ func (d *Driver) Check(id, tier string) int {
 			}
 		}
 		if kf := known.Match(id, sig); kf != nil {
-			fmt.Printf("KNOWN-FINDING: property=%s %s [%s] (%d runs)\n", id, kf.What, sig, agg.violCount[sig])
+			knownHits[kf] = append(knownHits[kf], fmt.Sprintf("%s (%d runs)", sig, agg.violCount[sig]))
 			continue
 		}
 		if len(reported) >= 12 {
@@ -456,6 +495,15 @@ func (d *Driver) Check(id, tier string) int {
 		fmt.Printf("  signature: %s\n  detail: %s\n  (seen in %d runs; plan %d steps -> %d)\n", sig, detail, agg.violCount[sig], rf.OrigSteps, len(rf.Plan.Steps))
 		reported = append(reported, sig)
 		exit = 1
+	}
+	for i := range known.Findings {
+		kf := &known.Findings[i]
+		if hits := knownHits[kf]; len(hits) > 0 {
+			fmt.Printf("KNOWN-FINDING: property=%s %s\n", id, kf.What)
+			for _, h := range hits {
+				fmt.Printf("  seen as: %s\n", h)
+			}
+		}
 	}
 	wall := time.Since(start).Seconds()
 	WriteEvidence(sc, tier, seed, agg, wall, len(reported))
